@@ -391,19 +391,45 @@ class SelectorWorld:
         except Exception as e:  # noqa: BLE001
             self.log.add("READ", name, meth, "raise", type(e).__name__)
             self.count("reads_raised")
+        self._c01_recheck(name, obj, m, f"after a {meth}({kw}) read", after_read=meth)
+
+    def _c01_recheck(self, name, obj, m, what, **facts):
+        """The cross-view invariants of the last successful fit still hold (after a read, after
+        a call the library rejected, after the caller reused an array it had passed in)."""
         last = m.get("last_ok")
-        if self.pid == "C01" and last is not None and not m.get("retired_for_warm"):
-            # the cross-view invariants still hold after the read
-            lop, lrec, n_before = last
-            X = self.heap.get(lop["X"])
-            y = self.heap.get(lop["y"]) if lop.get("y") else None
-            nv = len(self.violations)
-            saved = m["first_score"]
+        if self.pid != "C01" or last is None or m.get("retired_for_warm"):
+            return
+        lop, lrec, n_before = last
+        X = self.heap.get(lop["X"])
+        y = self.heap.get(lop["y"]) if lop.get("y") else None
+        nv = len(self.violations)
+        saved = m["first_score"]
+        cur = m["resolved"]
+        if m.get("ok_params") is not None:
+            m["resolved"] = m["ok_params"]  # the request of the last successful fit
+        try:
             self.c01_invariants(name, obj, m, lop, lrec, X, y, n_before)
-            m["first_score"] = saved
-            for v in self.violations[nv:]:
-                v["detail"] = f"after a {meth}({kw}) read: " + v["detail"]
-                v["facts"]["after_read"] = meth
+        finally:
+            m["resolved"] = cur
+        m["first_score"] = saved
+        for v in self.violations[nv:]:
+            v["detail"] = f"{what}: " + v["detail"]
+            v["facts"].update(facts)
+
+    def op_SCRIBBLE_PARAM(self, op, i):
+        """The caller reuses an index array it had passed as a hyper-parameter (initialize=
+        <ndarray>): the fitted selector must not follow (it may not alias the caller's array)."""
+        name = op["obj"]
+        obj, m = self.objs.get(name), self.meta.get(name)
+        if obj is None or m is None or m["retired"] or m["ok_fits"] == 0:
+            return
+        arr = m["resolved"].get(op["param"])
+        if not isinstance(arr, np.ndarray) or arr.size < 2 or not arr.flags.writeable:
+            return
+        arr[...] = arr[::-1].copy()  # the same indices in another order: still a legal value
+        self.stats["fired"]["caller:index_array_reused"] += 1
+        self.log.add("SCRIBBLE", name, op["param"])
+        self._c01_recheck(name, obj, m, f"after the caller reordered the {op['param']} array it had passed in", after_param_reuse=True)
 
     def op_MUTATE(self, op, i):
         """The caller overwrites one of its own arrays in place (buffer reuse)."""
@@ -497,6 +523,7 @@ class SelectorWorld:
         X = self.heap.get(op["X"])
         y = self.heap.get(op["y"]) if op.get("y") else None
         warm = bool(op.get("warm"))
+        was_retired = bool(m.get("retired_for_warm"))  # the fit before this one failed / was interrupted
         if warm and not op.get("expect") and self.pid in ("C06", "C08"):
             # domain: a continuation chain is an *increasing* schedule on the same data
             try:
@@ -603,6 +630,12 @@ class SelectorWorld:
                 self.after_failed_fit(name, obj, m, op, rec)
             # state of a failed fit is unspecified: a later warm start is out of scope
             m["retired_for_warm"] = True
+            if self.pid == "C01" and op.get("rejected_refit") and op.get("untouched") and not is_injected(rec.exc) and not warm and m["ok_fits"] > 0 and not was_retired:
+                # a request that fit() validates before it touches anything (an impossible
+                # n_to_select): the fitted selector must still be what its last fit left
+                m["retired_for_warm"] = False
+                self._c01_recheck(name, obj, m, "after a cold refit that was rejected for an invalid n_to_select", after_rejected_refit=True)
+                m["retired_for_warm"] = True
             if op.get("rejected_refit") and not is_injected(rec.exc) and not warm and m["ok_fits"] > 0:
                 # ... unless the library itself REJECTED the call (an invalid parameter value,
                 # no fault, no crash) and the object still reports the selections of its last
@@ -668,6 +701,7 @@ class SelectorWorld:
                 # but nothing after it belongs to the property's domain
                 m["c08_threshold_reached"] = True
         m["last_ok"] = (op, rec, n_before)
+        m["ok_params"] = dict(m["resolved"])
         m["last_n_selected"] = ns
         if not warm:
             m["cold_params"] = {k: repr(v) for k, v in m["resolved"].items() if k not in ("n_to_select", "score_threshold", "score_threshold_type", "random_state")}
